@@ -177,3 +177,54 @@ Proof.
     + intros EY. rewrite plain_none_correct in EY. destruct (lut_fix_spec _ _ _ _ _ EY) as [n [_ [EY' [FY _]]]].
       split; [exact FY|exists n; exact EY'].
 Qed.
+
+(* ------------------------------------------------------------ termination for monotone tables *)
+(* an erosive table reaches a fixed point after at most as many steps as there are set pixels *)
+Lemma erosive_fixed_point T b X :
+  erosive T -> (0 < length X)%nat -> rect X ->
+  let n := length (argwhere1 X) in lut_step T b (lut_iter n T b X) = lut_iter n T b X.
+Proof. intros E LX RX n. apply (enough_passes T b E n X _ LX RX (Inv_init b X)). cbn [fst]. unfold n. lia. Qed.
+
+(* an extensive table after at most as many steps as there are clear pixels *)
+Lemma extensive_fixed_point T b X :
+  extensive T -> (0 < length X)%nat -> rect X ->
+  let n := length (argwhere1 (gnot X)) in lut_step T b (lut_iter n T b X) = lut_iter n T b X.
+Proof.
+  intros E LX RX n.
+  assert (LG : (0 < length (gnot X))%nat) by (rewrite gnot_len; exact LX).
+  pose proof (erosive_fixed_point (inv_table T) (negb b) (gnot X) (inv_erosive T E) LG (rect_gnot X RX)) as F.
+  cbv zeta in F. fold n in F. rewrite inverted_iter in F by assumption.
+  destruct (iter_shape0 n T b X LX) as [S1 S3].
+  assert (LI : (0 < length (lut_iter n T b X))%nat) by (rewrite S1; exact LX).
+  rewrite (inverted_step T b _ LI (S3 RX)) in F.
+  rewrite <- (gnot_invol (lut_step T b (lut_iter n T b X))), F. apply gnot_invol.
+Qed.
+
+(* Full: "until nothing changes" terminates for erosive and for extensive tables: the fixed-point
+   search of the rule (= the plain loop with iterations=None, plain_none_correct) returns as soon
+   as the fuel exceeds the number of set (resp. clear) pixels *)
+Theorem monotone_terminates T b X fuel :
+  (0 < length X)%nat -> rect X ->
+  (erosive T /\ (length (argwhere1 X) < fuel)%nat) \/ (extensive T /\ (length (argwhere1 (gnot X)) < fuel)%nat) ->
+  exists Y, lut_fix fuel T b X = Some Y.
+Proof.
+  intros LX RX [[E Hn]|[E Hn]].
+  - apply (lut_fix_complete fuel T b X _ Hn). apply erosive_fixed_point; assumption.
+  - apply (lut_fix_complete fuel T b X _ Hn). apply extensive_fixed_point; assumption.
+Qed.
+
+(* hence table_lookup(..., iterations=None) returns, and returns a fixed point of the rule reached by
+   iterating it, for every erosive or extensive table on every path (no "if it returns" premise) *)
+Theorem table_lookup_monotone_total dt X T b :
+  (0 < length X)%nat -> rect X ->
+  (erosive T /\ (length (argwhere1 X) < FUEL)%nat) \/ (extensive T /\ (length (argwhere1 (gnot X)) < FUEL)%nat) ->
+  exists Y, table_lookup dt X T b None = Some Y /\ lut_step T b Y = Y /\ exists n, Y = lut_iter n T b X.
+Proof.
+  intros LX RX Hmono.
+  assert (EX : exists Y, table_lookup dt X T b None = Some Y).
+  { unfold table_lookup.
+    destruct (erosive_tb T && ((dt =? 0) || (dt =? 1))); [eexists; reflexivity|].
+    destruct (extensive_tb T && (dt =? 0)); [eexists; reflexivity|].
+    rewrite plain_none_correct. apply monotone_terminates; assumption. }
+  destruct EX as [Y EY]. exists Y. split; [exact EY|]. apply (table_lookup_none_correct dt X T b Y LX RX EY).
+Qed.
